@@ -22,7 +22,9 @@ THEOREMS = [f'Gnpy.Roadm.{t}' for t in (
     'never_amplifies_dbm', 'below_target_untouched', 'above_target_equalised', 'refOut_eq_min', 'refLoss_ge',
     'degree_pch_wins', 'degree_psd_wins', 'degree_psw_wins', 'degree_default', 'psd2powerdbm_lin',
     'paramsAccepted_iff', 'two_policies_rejected', 'merge_rejects_two', 'merge_spec', 'eqpt_exactly_one',
-    'nodeTarget_single', 'populate_keeps_user', 'populate_default')]
+    'nodeTarget_single', 'populate_keeps_user', 'populate_default', 'select_user_wins', 'select_unknown_rejected',
+    'select_mismatch_rejected', 'select_default_first', 'firstOfType_spec', 'maxloss_default_zero',
+    'lookupBands_sound')]
 RULE = ('cases are generated from one PRNG: (a) ROADM crossings: random node policy (pch/psd/psw), per-degree overrides '
         'of any kind on the used or another degree, 1-2 impairment frequency ranges with max loss, 1-24 channels with '
         'mixed baud/slot/offset and input powers on both sides of the target; (b) loader decisions for 0-3 policies in '
@@ -196,6 +198,7 @@ def run(case, drv):
 
 
 _EQ_MULTI = []
+SPLIT_HZ = 191.9e12
 
 
 def _eqpt_multi():
@@ -210,7 +213,14 @@ def _eqpt_multi():
         for new_id, key, ml in ((3, 'roadm-express-path', 6.0), (4, 'roadm-add-path', 8.0), (5, 'roadm-drop-path', 9.0)):
             src = copy.deepcopy(next(x for x in prof if key in x))
             src['roadm-path-impairments-id'] = new_id
-            src[key][0]['roadm-maxloss'] = ml
+            # two frequency ranges with different max loss (split inside the launched comb)
+            lower = src[key][0]
+            upper = copy.deepcopy(lower)
+            lower['frequency-range']['upper-frequency'] = SPLIT_HZ
+            lower['roadm-maxloss'] = ml
+            upper['frequency-range']['lower-frequency'] = SPLIT_HZ
+            upper['roadm-maxloss'] = ml + 2.0
+            src[key] = [lower, upper]
             prof.append(src)
         doc['Roadm'].append(base)
         _EQ_MULTI.append(_equipment_from_json(doc, DEFAULT_EXTRA_CONFIG))
@@ -269,23 +279,53 @@ def run_path(case, drv):
     roadms = [(i, el) for i, el in enumerate(path) if isinstance(el, Roadm)]
     res.cmp_exact('request.propagate: one ROADM call per ROADM of the path', len(log), len(roadms))
     ML = {'add': 11.5, 'drop': 11.5, 'express': 16.5}
-    PROFILE = {0: 16.5, 1: 11.5, 2: 11.5, 3: 6.0, 4: 8.0, 5: 9.0}
+    PROFILE = {0: 16.5, 1: 11.5, 2: 11.5, 3: 6.0, 4: 8.0, 5: 9.0}   # ids 3-5: +2 dB at and above SPLIT_HZ
+    DEFAULT_ID = {'express': 0, 'add': 1, 'drop': 2}
     chosen = {(a, b): i for a, b, i in case.get('pdi', [])}
     types = Counter_()
     for (i, el), (r, degree, from_degree, pin, pout, baud, slot, off, freq) in zip(roadms, log):
         nxt, prv = path[i + 1], path[i - 1]
         ptype = 'add' if isinstance(prv, Transceiver) else ('drop' if isinstance(nxt, Transceiver) else 'express')
         types[ptype] += 1
-        ml = ML[ptype] if rtype else 0.0
-        if r.uid == 'R0' and (prv.uid, nxt.uid) in chosen:
-            ml = PROFILE[chosen[(prv.uid, nxt.uid)]]     # the profile the user selected for this internal connection
+        user = chosen.get((prv.uid, nxt.uid)) if r.uid == 'R0' else None
+        if user is not None:
             types['user_profile'] += 1
+        # independent expectation of the per-carrier path loss
+        pid = user if user is not None else (DEFAULT_ID[ptype] if rtype else None)
+
+        def exp_ml(fr):
+            if pid is None:
+                return 0.0
+            return PROFILE[pid] + (2.0 if (pid >= 3 and fr > SPLIT_HZ) else 0.0)   # both ranges contain the split point: first listed wins
+        mls = [exp_ml(float(fr)) for fr in freq]
+        # correspondence of the profile selection and of the per-frequency lookup (model: selectProfile / lookupBands)
+        profs = []
+        for k_id, imp in r.roadm_path_impairments.items():
+            bands = []
+            for item in imp.impairments:
+                fr_ = item['frequency-range']
+                bands.append([None if fr_['lower-frequency'] is None else f2b(fr_['lower-frequency']),
+                              f2b(fr_['upper-frequency'] if fr_['upper-frequency'] is not None else 0.0),
+                              f2b(item.get('roadm-maxloss', 0))])
+            profs.append({'id': int(k_id), 'ptype': imp.path_type, 'bands': bands})
+        pans = drv.ask('c06.profile', profiles=profs, user=user, ptype=ptype, freqs=fl(freq))
+        res.cmp_exact('set_roadm_internal_paths.impairment_id', r.get_roadm_path(prv.uid, nxt.uid).impairment_id,
+                      pans.get('id'))
+        impl_ml = r.get_impairment('roadm-maxloss', freq, prv.uid, nxt.uid)
+        impl_ml = [float(x) for x in np.broadcast_to(impl_ml, (len(freq),))] if impl_ml is not None and len(impl_ml) in (1, len(freq)) else None
+        model_ml = None if any(x is None for x in pans['maxloss']) else [b2f(x) for x in pans['maxloss']]
+        res.cmp_exact('Roadm.get_impairment[roadm-maxloss]', impl_ml, model_ml)
+        for c_, (a_, b_) in enumerate(zip(model_ml or [], mls)):
+            if abs(a_ - b_) > 1e-12:
+                res.fail(f'path loss profile: {ptype} connection {prv.uid} -> {nxt.uid} of {r.uid} uses max loss {a_} dB for '
+                         f'carrier {c_}, the selected/default profile says {b_} dB')
+                break
         # correspondence on the whole crossing, with the degree the PATH dictates (next element's uid)
         if r.uid == 'R0':
             node, per = case['node'], case['per']
         else:
             node, per = {'pch': -20.0} if not case['detailed'] else {'pch': -20.0}, {p: {} for p in POL}
-        ans = drv.ask('c06.propagate', p=fl(pin), maxloss=fl([ml] * len(pin)), offset=fl(off), baud=fl(baud),
+        ans = drv.ask('c06.propagate', p=fl(pin), maxloss=fl(mls), offset=fl(off), baud=fl(baud),
                       slot=fl(slot), degree=nxt.uid, node=_node_json(node), per=_per_json(per),
                       ref_in=f2b(r.ref_pch_in_dbm[prv.uid]), ref_baud=f2b(r.ref_carrier.baud_rate),
                       ref_slot=f2b(r.ref_carrier.slot_width))
@@ -305,7 +345,7 @@ def run_path(case, drv):
             else:
                 t = 10 * math.log10(slot[c] * node['psw'] * 1e-9)
             in_dbm = 10 * math.log10(pin[c] * 1e3)
-            exp = min(t + off[c], in_dbm - ml)
+            exp = min(t + off[c], in_dbm - mls[c])
             got = 10 * math.log10(pout[c] * 1e3)
             if abs(got - exp) > 1e-6:
                 res.fail(f'egress power on a path: {ptype} crossing of {r.uid} towards {nxt.uid}, channel {c} leaves at '
